@@ -21,7 +21,7 @@ BAD_KINDS = ['rows', 'length', 'words', 'type_traces', 'type_data', 'float_data'
 
 
 RULE = {
-    'C01': 'seeded histories: (kind, precision, trace dtype over its full range, data dtype, memory layout C/F/strided, regime, word layout incl. 17-300 and 4096 words, class list incl. 131-256 classes, traces of 1-35 or 257-700 samples, a few non-finite cells in the float regime, caller-recycled batch buffer) x ordered partition of up to 1000 (a few: 3000) rows into batches x '
+    'C01': 'seeded histories: (kind, precision, trace dtype over its full range, data dtype, memory layout C/F/strided, regime, word layout incl. 17-300 and 4096 words, class list incl. 131-256 classes, traces of 1-35 or 257-700 samples, a few NaN cells in the float regime, caller-recycled batch buffer) x ordered partition of up to 1000 (a few: 3000) rows into batches x '
            'compute()/compute-twice positions x clock script x worker-count changes; a case is non-trivial when it has >= 2 accepted '
            'batches; distinct = distinct (kind, precision, dtype, regime, op-kind sequence with batch lengths)',
     'C11': 'one seeded history executed under 4-8 environments (scripted process_time => kernel schedule; worker-count sequence); '
@@ -340,7 +340,10 @@ def gen_history(seed, tier, prop, kinds_allowed):
     nf = rng.stream(seed, 'nonfinite')
     if regime == 'float' and m >= 2 and nf.random() < 0.25 and kind in ('cpa', 'cpaalt', 'dpa', 'anova', 'nicv', 'snr'):
         rows = sorted(set(x for a_, b_ in batches for x in range(a_, b_)))
-        scn['nonfinite'] = [[nf.choice(rows), nf.randrange(m), nf.choice(['nan', 'nan', 'inf', 'ninf'])] for _ in range(nf.choice([1, 1, 2, 4]))]
+        # NaN only: a NaN cell makes its sample NaN through the plain sums whatever the split.  An infinite cell does not have that property
+        # (0 * inf inside a matrix product is NaN or skipped depending on the shape BLAS is handed: -inf for one split, NaN for another, both
+        # equally meaningless) - no statistic of such a sample is defined, so none is demanded
+        scn['nonfinite'] = [[nf.choice(rows), nf.randrange(m), nf.choice(['nan', 'nan', 'nan', 'nan'])] for _ in range(nf.choice([1, 1, 2, 4]))]
     if rng.stream(seed, 'recycle').random() < 0.15:
         scn['recycle'] = True
     # knobs: clock script and worker counts (always under a simulated clock)
